@@ -168,6 +168,9 @@ pub struct TrainCase {
     /// (message, reply if one is due)
     pub steps: Vec<(M, Option<M>)>,
     pub write_block_ms: u64,
+    /// the port accepts every byte but reports an error from flush(); calls may then fail, pacing must still hold
+    #[serde(default)]
+    pub flush_fails: bool,
 }
 
 pub fn check_train(c: &TrainCase, st: &mut Stats) -> Result<(), String> {
@@ -183,6 +186,9 @@ pub fn check_train(c: &TrainCase, st: &mut Stats) -> Result<(), String> {
     if c.write_block_ms > 0 {
         state.write_block = Some(Duration::from_millis(c.write_block_ms));
     }
+    if c.flush_fails {
+        state.fail_flush = Some(std::io::ErrorKind::Other);
+    }
     let port = TestPort::with_state(state);
     let h = port.handle();
     let mut bus = SerialSignBus::try_new(port).map_err(|e| format!("try_new failed: {e}"))?;
@@ -193,7 +199,9 @@ pub fn check_train(c: &TrainCase, st: &mut Stats) -> Result<(), String> {
         let w0 = h.borrow().write_calls.len();
         let r = catch(|| bus.process_message(m.to_message()).map(|_| ()).map_err(|e| e.to_string())).map_err(|p| format!("step {i}: panic: {p}"))?;
         let ret = Instant::now();
-        r.map_err(|e| format!("step {i}: process_message({}) failed on a cooperative port: {e}", m.short()))?;
+        if !c.flush_fails {
+            r.map_err(|e| format!("step {i}: process_message({}) failed on a cooperative port: {e}", m.short()))?;
+        }
         let s = h.borrow();
         marks.push((w0, s.write_calls.len(), s.read_calls.len(), ret));
         st.eval();
@@ -244,7 +252,8 @@ fn train_strategy() -> impl proptest::strategy::Strategy<Value = TrainCase> {
         1 => (0u8..6).prop_map(|o| (M::Req(3, o), Some(M::Ack(3, o)))),
         1 => Just((M::PixelsComplete(3), None)),
     ];
-    (proptest::collection::vec(step, 3..=8), proptest::sample::select(vec![0u64, 0, 0, 3, 11])).prop_map(|(steps, write_block_ms)| TrainCase { steps, write_block_ms })
+    (proptest::collection::vec(step, 3..=8), proptest::sample::select(vec![0u64, 0, 0, 3, 11]), prop_oneof![5 => Just(false), 1 => Just(true)])
+        .prop_map(|(steps, write_block_ms, flush_fails)| TrainCase { steps, write_block_ms, flush_fails })
 }
 
 pub fn all_pairs(addr: u16) -> Vec<PaceCase> {
@@ -269,6 +278,10 @@ pub fn all_pairs(addr: u16) -> Vec<PaceCase> {
     let mut replies: Vec<M> = (0..13).map(|s| M::Report(addr, s)).collect();
     replies.extend((0..6).map(|o| M::Ack(addr, o)));
     replies.push(M::Unknown { addr, ty: 0x44, data: vec![] });
+    // look like in-progress reports but are not: type 4 with more than one data byte, other types with those codes
+    replies.push(M::Unknown { addr, ty: 4, data: vec![0x13, 0x00] });
+    replies.push(M::Unknown { addr, ty: 4, data: vec![0x11, 0xFF, 0x00] });
+    replies.push(M::Unknown { addr, ty: 7, data: vec![0x13] });
     replies.push(M::Data { off: 0, data: vec![0x13] });
     replies.push(M::Report(addr ^ 0x0101, 10)); // an in-progress report from another address is still an in-progress report
     let mut out = vec![];
@@ -340,10 +353,14 @@ pub fn run(ctx: &Ctx) {
             (M::Query(3), Some(M::Report(3, 9))),
         ],
         write_block_ms: 0,
+        flush_fails: false,
     };
     let mut st = Stats::new();
-    if let Err(m) = check_train(&fixed, &mut st) {
-        ctx.fail("train", serde_json::to_value(&fixed).unwrap(), m);
+    for flush_fails in [false, true] {
+        let t = TrainCase { flush_fails, ..fixed.clone() };
+        if let Err(m) = check_train(&t, &mut st) {
+            ctx.fail("train", serde_json::to_value(&t).unwrap(), m);
+        }
     }
     ctx.merge("train", st);
     crate::engine::run_generated_opts(ctx, "train", ctx.tier.pick(400, 6_000), 64, 60, train_strategy, |c, st| check_train(c, st));
